@@ -10,7 +10,7 @@ def run(ctx):
     r_lay, _ = layout.rule_layout("C12", repo, layout.std_tables(repo.P)[:1])
     spec = {"crate::Fq2::from_slice": {"lens": {64}, "prefix": None}, "crate::fields::fq2::Fq2::from_slice": {"lens": {64}, "prefix": None}}
     r_acc, results = convert.rule_accept("C12", repo, ls, spec, "dev")
-    rules = [field.rule_tower_consts("C12", repo), field.rule_zero_cover("C12", repo), r_lay, layout.rule_wrappers("C12", repo, [("crate::Fq2::to_slice", "crate::fields::fq2::Fq2::to_slice")]),
+    rules = [field.rule_tower_consts("C12", repo), field.rule_zero_cover("C12", repo), field.rule_tower_shapes("C12", repo), r_lay, layout.rule_wrappers("C12", repo, [("crate::Fq2::to_slice", "crate::fields::fq2::Fq2::to_slice")]),
              layout.rule_decoder_layout("C12", repo, ls), layout.rule_conv_traits("C12", repo), r_acc, convert.rule_total("C12", repo, ls, list(spec), "dev", results),
              layout.rule_parity_encoder("C12", repo, ls), shared.rule_eq_derived(repo, ["crate::Fq2", "crate::fields::fq2::Fq2"]),
              field.rule_ops_forward("C12", repo, ["crate::fields::fq2::Fq2", "crate::Fq2"])]
